@@ -50,6 +50,7 @@ THEOREMS = [
     "Measured.Obligations.init_faithful", "Measured.Obligations.init_prefixes_faithful",
     "Measured.Obligations.init_dimensions_faithful", "Measured.Obligations.shipped_unit_names_faithful",
     "Measured.queries_faithful", "Measured.rframed_convert", "Measured.C19.registries_faithful_after_every_query_history",
+    "Measured.history_faithful", "Measured.C19.registries_faithful_in_every_history",
 ]
 LEAN_TARGETS = ["Props.C19", "Obligations.C19", "Proofs.RegFrame", "Props.Planner"]
 QUICK = {"chunks": 8, "ops": 700}
